@@ -1,5 +1,5 @@
 HOOK_COMMITS = ["33a37d7"]
-FIX_COMMITS = ["22a3b9d", "0101a6c", "dbbe9b2"]
+FIX_COMMITS = ["547ab85", "bf5a7b0", "e00c6fc"]
 NOTES = ("All checks are property-based tests / fuzz targets over the real go-dcp code built from /repo's working tree "
          "(build tag verif). Exit 2 = inconclusive (build/infrastructure/budget), never a pass. See DESIGN.md.")
 NOT_APPLICABLE = {}
@@ -48,8 +48,8 @@ META = {
     "C05": dict(
         technique="rapid stateful op-lists with store-fault injection and in-flight save windows against a durable-progress model; periodic ticker and Commit variants",
         text="Every save outcome is checked: success => D_t0(v) <= stored(v) <= M_t1(v); a skipped save is a violation if advanced progress is not "
-             "durable; failures forget nothing; no write when nothing changed. Two defects found this way were repaired (fix: commits 0101a6c, "
-             "22a3b9d); their shrunk replays are re-run on every check.",
+             "durable; failures forget nothing; no write when nothing changed. Two defects found this way were repaired (fix: commits bf5a7b0, "
+             "547ab85); their shrunk replays are re-run on every check.",
         note="'timeout' of a store call is modelled as a rejected save (the Couchbase backend maps a deadline to an error); real-time ticker unit waits up to 5 s (typical 4 ms).",
     ),
     "C06": dict(
